@@ -147,6 +147,41 @@ def run_chunk(lists):
     return len(lists), judged, skipped, viols
 
 
+def run_edited(lists):
+    """a reaction edited in place after a first duplicate search (its species, window and type become those of another
+    pool member): the second search must see the list as it is now"""
+    from ..harness.render import reset_globals, quiet
+
+    reset_globals()
+    from naunet.network import Network
+    from naunet.species import Species
+    from naunet.reactiontype import ReactionType
+
+    viols = []
+    n = 0
+    with quiet():
+        for ids in lists:
+            for src in [x for x in ("A0", "A2", "A3", "B0", "B1", "M2") if x != ids[-1]]:
+                reacs = [mk(r) for r in ids]
+                net = Network(list(reacs))
+                net.find_duplicate_reaction()  # whatever this leaves behind must not matter
+                r, p_, lo, hi, t = instances()[src]
+                tgt = net.reaction_list[-1]
+                tgt.reactants = [Species(x) for x in r if x not in ("CR", "PHOTON")]
+                tgt.products = [Species(x) for x in p_]
+                tgt.temp_min, tgt.temp_max, tgt.reaction_type = lo, hi, t
+                now = list(ids[:-1]) + [src]
+                for mode in (None, "brief"):
+                    if not transitive(now, mode):
+                        continue
+                    n += 1
+                    edup, _ = reference(now, mode)
+                    _d, dupidx, _f = net.find_duplicate_reaction(mode=mode)
+                    if list(dupidx) != edup:
+                        viols.append((f"C15:after-edit:{mode}", f"{list(ids)} with the last reaction edited into {src} after a first search, mode={mode}: reported {list(dupidx)}, reference {edup}", {"ids": list(ids), "edited_into": src, "mode": mode}))
+    return n, viols
+
+
 def run(ctx):
     nmax = 4 if ctx.tier == "quick" else 5
     lists = [l for n in range(1, nmax + 1) for l in itertools.product(IDS, repeat=n)]
@@ -158,12 +193,18 @@ def run(ctx):
         judged += j
         skipped += s
         ctx.absorb(viols)
+    ed = [l for n_ in (2, 3) for l in itertools.product(["A0", "A1", "A3", "B0", "B1", "M1"], repeat=n_)]
+    nedit = 0
+    for n_, viols in ctx.pmap(run_edited, [ed[i : i + 40] for i in range(0, len(ed), 40)]):
+        nedit += n_
+        ctx.absorb(viols)
     ctx.assumptions += [
         "equivalence per mode: default = same reactant/product multisets, same window, same type or either type UNKNOWN; brief/minimal = same multisets; short = same multisets, window and type name",
         "in default mode the UNKNOWN wildcard makes the relation non-transitive when it bridges two different known types; such (list, mode) pairs are enumerated but not judged (counted as skipped)",
     ]
     return {
-        "evaluations": judged + skipped,
+        "evaluations": judged + skipped + nedit,
+        "searches_after_in_place_edit": nedit,
         "distinct_nontrivial": judged,
         "rule": f"all lists of length <= {nmax} over a pool of 11 reactions (two bases, a multiplicity-only pair; permuted reactants / products, windows differing in both bounds / only the upper / only the lower bound, other type, unknown type) and a second pool of electron/label permutations x modes default/brief/minimal/short; O(n^2) pairwise reference; removal round trip and second call",
         "samples": [list(l) for l in lists[:: max(1, len(lists) // 6)][:6]],
@@ -175,5 +216,8 @@ def run(ctx):
 
 
 def replay(ctx, case):
+    if "edited_into" in case:
+        ctx.absorb(run_edited([tuple(case["ids"])])[1])
+        return
     n, j, s, v = run_chunk([tuple(case["ids"])])
     ctx.absorb([x for x in v if x[2]["mode"] == case["mode"]])
